@@ -237,6 +237,58 @@ def props_records(base):
     return recs
 
 
+def chs_records(base):
+    """-chs (create store) pointed at a directory that already holds a store: same outcome as
+    constructing FileHashStore with those properties there (accepted iff they equal the
+    store's, refused without touching anything otherwise)."""
+    fhs, _ = load_hashstore()
+    import hashstore.hashstoreclient as cli
+    recs = []
+    os.makedirs(base, exist_ok=True)
+    inp = os.path.join(base, "in")
+    with open(inp, "wb") as f:
+        f.write(b"chs content\r\n" * 9)
+    for qi, (d, w, algo, ns) in enumerate([(3, 2, "SHA-256", NS), (2, 3, "SHA-512", OTHER_FMT)]):
+        t = os.path.join(base, "t%d" % qi)
+        st = fhs.FileHashStore({"store_path": t, "store_depth": d, "store_width": w,
+                                "store_algorithm": algo, "store_metadata_namespace": ns})
+        st.store_object("chs:pid", inp)
+        st.store_metadata("chs:pid", inp)
+        before = tree_hash(t)
+        variants = [("same", d, w, algo, ns), ("depth", d + 1, w, algo, ns),
+                    ("width", d, w + 1, algo, ns),
+                    ("algo", d, w, "MD5" if algo != "MD5" else "SHA-1", ns),
+                    ("ns", d, w, algo, ns + "/v3")]
+        for vi, (what, d2, w2, a2, n2) in enumerate(variants):
+            a = os.path.join(base, "a%d_%d" % (qi, vi))
+            b = os.path.join(base, "b%d_%d" % (qi, vi))
+            shutil.copytree(t, a)
+            shutil.copytree(t, b)
+            old = sys.argv
+            sys.argv = ["hashstore", a, "-chs", "-dp=%d" % d2, "-wp=%d" % w2, "-ap=" + a2, "-nsp=" + n2]
+            craised = False
+            try:
+                with contextlib.redirect_stdout(io.StringIO()), contextlib.redirect_stderr(io.StringIO()):
+                    cli.main()
+            except BaseException:  # noqa
+                craised = True
+            finally:
+                sys.argv = old
+            araised = False
+            try:
+                fhs.FileHashStore({"store_path": b, "store_depth": d2, "store_width": w2,
+                                   "store_algorithm": a2, "store_metadata_namespace": n2})
+            except BaseException:  # noqa
+                araised = True
+            recs.append({"kind": "chs", "differs": what, "made": [d, w, algo, ns], "before": before,
+                         "cli": {"raised": craised, "tree": tree_hash(a)},
+                         "api": {"raised": araised, "tree": tree_hash(b)}})
+            shutil.rmtree(a)
+            shutil.rmtree(b)
+    shutil.rmtree(base, ignore_errors=True)
+    return recs
+
+
 def run(tier, seed):
     cs, r = cases()
     base = os.path.join(tlc.scratch_root(), "cli.%d" % os.getpid())
@@ -246,5 +298,6 @@ def run(tier, seed):
         res = pool.map(_worker, jobs)
     recs = [x for chunk in res for x in chunk]
     recs += props_records(os.path.join(base, "props"))
+    recs += chs_records(os.path.join(base, "chs"))
     shutil.rmtree(base, ignore_errors=True)
     return recs, len(cs), r
